@@ -396,6 +396,35 @@ def empty_chunk_is_identity(chk):
     chk.floor('chunked cipher entry points', n, 32)
 
 
+def x86ni_counter_lanes(chk):
+    """AES-NI CTR processes four blocks at a time: the four counter blocks differ in their last 32 bits, which hold the *big-endian*
+    encoding of cc, cc+1, cc+2, cc+3.  The increment must happen before the byte swap (a carry out of the low byte has to reach the
+    other three): each value inserted into lane 3 is bswap32(cc + k).  Symbolic form of the four insertions."""
+    from .. import sym
+    R = 'ctr-lane-counters'
+    src, fn = 'src/symcipher/aes_x86ni_ctr.c', 'br_aes_x86ni_ctr_run'
+    u = build.load_unit(src)
+    F = next((irf.Func(u, f) for f in u['functions'] if f['name'] == fn and f.get('blocks')), None)
+    if F is None:
+        raise AnalysisBroken('%s vanished' % fn)
+    S = sym.Sym(F, leaf_vars=('cc',))
+    ins = [i for i in F.insts.values() if i['op'] == 'insertelement' and i['ops'][2] == {'k': 'c', 'v': 3, 'w': 32} or
+           (i['op'] == 'insertelement' and i['ops'][2]['k'] == 'c' and i['ops'][2]['v'] == 3)]
+    ins.sort(key=lambda i: F.order[i['id']])
+    if len(ins) < 4:
+        raise AnalysisBroken('%s: fewer than 4 insertions into lane 3 (%d)' % (fn, len(ins)))
+    cc = S.atom(('var', 'cc'))
+    for k, i in enumerate(ins[:4]):
+        t = S.sym(i['ops'][1])
+        want = S.atom(('call', 'llvm.bswap.i32', sym.add_const(cc, k)))
+        inst = '%s: counter block %d carries bswap32(cc + %d)' % (fn, k, k)
+        if t == want:
+            chk.ok(R, inst, F.where(i))
+        else:
+            chk.violation(R, inst, F.where(i), 'the inserted value is %s: a carry out of the low counter byte does not propagate' % sym.show(t)[:120],
+                          key='%s %d' % (R, k))
+
+
 def run(tier):
     chk = report.Check('C12', tier,
                        'Constant tables of the symmetric primitives compared with values generated from their standards (FIPS 197 S-box, inverse '
@@ -506,6 +535,7 @@ def run(tier):
     des_ede_schedule(chk)
     ghash_pclmul_tail(chk)
     empty_chunk_is_identity(chk)
+    x86ni_counter_lanes(chk)
     from .. import lints as _l
     _l.tail_copy_from_running_pointer(chk, ('src/symcipher/', 'src/hash/'))
     _l.limb_split_consistent(chk, ['src/symcipher/'])
